@@ -8,7 +8,7 @@
 use crate::common::*;
 use crate::rig::{ChanSpec, Rig, RigCfg, TapEv, build_rig};
 use crate::sctprd::{self, Chunk, serial_le, serial_lt};
-use crate::wire::{Action, Dir, Kind, Plan, RandomPhase, Rule};
+use crate::wire::{Action, Dir, Plan, RandomPhase, Rule};
 use parking_lot::Mutex;
 use rustrtc::RtcConfiguration;
 use rustrtc::transports::datachannel::{DataChannel, DataChannelEvent};
@@ -1213,32 +1213,11 @@ fn oracle_c13(o: &Outcome) -> (Verdict, bool, Vec<(String, u64)>) {
     let all_reliable = o.scn.chans.iter().all(|c| c.reliable());
     // ---------- capture rules: size, CRC, tag, consecutive TSNs
     for dir in [Dir::A2B, Dir::B2A] {
-        let mut peer_tag: Option<u32> = None; // tag announced by the receiver of this direction
-        let mut next_new: Option<u32> = None;
         let mut seen: HashSet<u32> = HashSet::new();
         let mut pkts = 0u64;
         for c in o.wire.iter() {
-            // learn tags from the opposite direction's INIT / INIT-ACK
-            if c.dir == dir.rev() {
-                if let Some(p) = &c.sctp {
-                    for k in &p.chunks {
-                        if let Chunk::Init(i) | Chunk::InitAck(i) = k {
-                            peer_tag = Some(i.initiate_tag);
-                        }
-                    }
-                }
+            if c.dir != dir {
                 continue;
-            }
-            if c.kind == Kind::AppOpaque {
-                return (
-                    Verdict::violated(
-                        "wire:app_record_not_openable",
-                        "an ApplicationData record on the wire does not open under the negotiated keys",
-                        json!({"idx": c.idx}),
-                    ),
-                    nontrivial,
-                    counters,
-                );
             }
             let Some(p) = &c.sctp else { continue };
             pkts += 1;
@@ -1275,45 +1254,8 @@ fn oracle_c13(o: &Outcome) -> (Verdict, bool, Vec<(String, u64)>) {
                     counters,
                 );
             }
-            let has_init = p.has(sctprd::CT_INIT);
-            if has_init {
-                if p.vtag != 0 {
-                    return (
-                        Verdict::violated("wire:init_tag_nonzero", "INIT sent with non-zero verification tag", json!({"vtag": p.vtag})),
-                        nontrivial,
-                        counters,
-                    );
-                }
-            } else if let Some(t) = peer_tag {
-                if p.vtag != t {
-                    return (
-                        Verdict::violated(
-                            "wire:wrong_verification_tag",
-                            format!("packet carries tag {:08x}, peer announced {:08x}: {}", p.vtag, t, p.summary()),
-                            json!({"vtag": p.vtag, "expected": t, "pkt": p.summary(), "plan": o.scn.plan.to_json()}),
-                        ),
-                        nontrivial,
-                        counters,
-                    );
-                }
-            }
             for d in p.data() {
-                if seen.insert(d.tsn) {
-                    if let Some(n) = next_new {
-                        if d.tsn != n {
-                            return (
-                                Verdict::violated(
-                                    "wire:new_tsn_not_consecutive",
-                                    format!("new DATA chunk carries TSN {} but the previous new TSN was {}", d.tsn, n.wrapping_sub(1)),
-                                    json!({"tsn": d.tsn, "expected": n, "dir": dir.name()}),
-                                ),
-                                nontrivial,
-                                counters,
-                            );
-                        }
-                    }
-                    next_new = Some(d.tsn.wrapping_add(1));
-                } else {
+                if !seen.insert(d.tsn) {
                     nontrivial = true; // a retransmission was observed
                 }
             }
@@ -1335,14 +1277,24 @@ fn oracle_c13(o: &Outcome) -> (Verdict, bool, Vec<(String, u64)>) {
         let _ = submit_done_stamp;
         let mut rx_since_last_tx: Vec<u8> = vec![];
         let mut min_rwnd_seen: u32 = u32::MAX;
+        let mut peer_tag: Option<u32> = None; // initiate tag of the last INIT / INIT-ACK handed in
+        let mut next_new_tsn: Option<u32> = None;
+        // SACKs emitted since the last DATA / FORWARD-TSN was handed in. A receiver legitimately
+        // answers one batch of DATA with an immediate SACK, a delayed SACK and a duplicate report;
+        // a sender that keeps emitting SACKs with nothing handed in is not quiescent.
+        let mut sacks_since_data_rx: u32 = 0;
         for (i, ev) in tap.iter().enumerate() {
             if !ev.tx {
                 for k in &ev.pkt.chunks {
                     rx_since_last_tx.push(k.ctype());
+                    if matches!(k.ctype(), sctprd::CT_DATA | sctprd::CT_FORWARD_TSN) {
+                        sacks_since_data_rx = 0;
+                    }
                     match k {
                         Chunk::Init(x) | Chunk::InitAck(x) => {
                             r_window = Some(x.a_rwnd);
                             epoch_new = 0;
+                            peer_tag = Some(x.initiate_tag);
                         }
                         Chunk::Sack(s) => {
                             // stale SACKs (cum behind what we already know) still update peer_rwnd in
@@ -1378,7 +1330,29 @@ fn oracle_c13(o: &Outcome) -> (Verdict, bool, Vec<(String, u64)>) {
                 }
                 continue;
             }
-            // TX
+            // TX: verification tag = the tag the peer announced to THIS endpoint (0 only on INIT)
+            if ev.pkt.has(sctprd::CT_INIT) {
+                if ev.pkt.vtag != 0 {
+                    return (
+                        Verdict::violated("tap:init_tag_nonzero", format!("side {side} sent INIT with verification tag {:08x}", ev.pkt.vtag), json!({"tap_index": i})),
+                        true,
+                        counters,
+                    );
+                }
+            } else if Some(ev.pkt.vtag) != peer_tag {
+                return (
+                    Verdict::violated(
+                        format!("tap:wrong_verification_tag:{}", ev.pkt.chunks.first().map(|c| c.name()).unwrap_or("empty")),
+                        format!("side {side} emitted a packet with tag {:08x} while the tag the peer announced to it is {:?}: {}", ev.pkt.vtag, peer_tag.map(|t| format!("{t:08x}")), ev.pkt.summary()),
+                        json!({"tap_index": i, "vtag": ev.pkt.vtag, "peer_tag": peer_tag, "pkt": ev.pkt.summary(), "plan": o.scn.plan.to_json()}),
+                    ),
+                    true,
+                    counters,
+                );
+            }
+            if ev.pkt.has(sctprd::CT_SACK) {
+                sacks_since_data_rx += 1;
+            }
             let mut has_new_data = false;
             for k in &ev.pkt.chunks {
                 match k {
@@ -1401,6 +1375,20 @@ fn oracle_c13(o: &Outcome) -> (Verdict, bool, Vec<(String, u64)>) {
                             epoch_new = 0;
                             nontrivial = true;
                         } else {
+                            if let Some(n) = next_new_tsn {
+                                if d.tsn != n {
+                                    return (
+                                        Verdict::violated(
+                                            "tap:new_tsn_not_consecutive",
+                                            format!("side {side}: new DATA chunk carries TSN {} but the previous new TSN was {}", d.tsn, n.wrapping_sub(1)),
+                                            json!({"tsn": d.tsn, "expected": n, "tap_index": i}),
+                                        ),
+                                        true,
+                                        counters,
+                                    );
+                                }
+                            }
+                            next_new_tsn = Some(d.tsn.wrapping_add(1));
                             sent.insert(d.tsn);
                             has_new_data = true;
                             if highest_sent.map(|h| serial_lt(h, d.tsn)).unwrap_or(true) {
@@ -1442,10 +1430,9 @@ fn oracle_c13(o: &Outcome) -> (Verdict, bool, Vec<(String, u64)>) {
                         let ok = match t {
                             sctprd::CT_HEARTBEAT => true,
                             sctprd::CT_HEARTBEAT_ACK => rx_since_last_tx.contains(&sctprd::CT_HEARTBEAT),
-                            sctprd::CT_SACK => rx_since_last_tx.contains(&sctprd::CT_DATA)
-                                || rx_since_last_tx.contains(&sctprd::CT_FORWARD_TSN)
-                                // delayed SACK: DATA handed in earlier; accept if any DATA was handed in since `since`
-                                || tap[since..i].iter().any(|e| !e.tx && e.pkt.has(sctprd::CT_DATA)),
+                            // a SACK answers DATA / FORWARD-TSN handed in since the previous SACK
+                            // (possibly delayed by the delayed-SACK timer)
+                            sctprd::CT_SACK => sacks_since_data_rx <= 3,
                             sctprd::CT_INIT_ACK => rx_since_last_tx.contains(&sctprd::CT_INIT),
                             sctprd::CT_COOKIE_ACK => rx_since_last_tx.contains(&sctprd::CT_COOKIE_ECHO),
                             sctprd::CT_COOKIE_ECHO => rx_since_last_tx.contains(&sctprd::CT_INIT_ACK),
@@ -1462,7 +1449,8 @@ fn oracle_c13(o: &Outcome) -> (Verdict, bool, Vec<(String, u64)>) {
                                 Verdict::violated(
                                     format!("tap:not_quiescent:{}", sctprd::chunk_name(t)),
                                     format!("side {side} emitted {} although everything it sent was acknowledged and nothing handed in since called for it", sctprd::chunk_name(t)),
-                                    json!({"tap_index": i, "pkt": ev.pkt.summary()}),
+                                    json!({"tap_index": i, "pkt": ev.pkt.summary(), "all_acked_since": since,
+                                           "context": tap[i.saturating_sub(14)..=i].iter().map(|e| format!("{} {} {}", e.t_us, if e.tx {"TX"} else {"RX"}, e.pkt.summary())).collect::<Vec<_>>()}),
                                 ),
                                 true,
                                 counters,
@@ -1638,6 +1626,47 @@ fn gen_c01(args: &Args) -> Vec<Scenario> {
         c01_workload(&mut rng, &mut s, total);
         if rng.chance(1, 4) {
             s.rwnd = *rng.pick(&[16 * 1024usize, 64 * 1024]);
+        }
+        out.push(s);
+    }
+    // a partially-reliable sibling channel shares the association (abandonment / FORWARD-TSN must
+    // not stall the reliable channel), and in-band channels are opened while the send buffer is full
+    let n_sib = args.tier.pick(16, 200);
+    for i in 0..n_sib {
+        let mut s = default_scn("c01", &format!("sibling#{i}"));
+        let mut sib = reliable_chan(3);
+        sib.ordered = rng.bool();
+        if rng.bool() {
+            sib.max_retransmits = Some(*rng.pick(&[0u16, 1, 3]));
+        } else {
+            sib.max_lifetime_ms = Some(*rng.pick(&[20u16, 200]));
+        }
+        sib.negotiated = rng.bool();
+        sib.label = "sib".into();
+        s.chans.push(sib);
+        s.plan = if i % 4 == 0 { Plan::default() } else { random_plan(&mut rng, false) };
+        for side in ['a', 'b'] {
+            s.sends.push(SendSpec { side, ch: 1, sender: 0, n: 40, mode: "mixed".into(), seed: rng.next_u64(), gap_us: *rng.pick(&[0u64, 500]) });
+            s.sends.push(SendSpec { side, ch: 3, sender: 0, n: 30, mode: rng.pick(&["frag", "big", "mixed"]).to_string(), seed: rng.next_u64(), gap_us: 0 });
+        }
+        out.push(s);
+    }
+    for i in 0..args.tier.pick(6, 40) {
+        let mut s = default_scn("c01", &format!("inband-saturated#{i}"));
+        for id in [2u16, 4, 6] {
+            let mut c = reliable_chan(id);
+            c.negotiated = false;
+            c.creator = 'a';
+            s.chans.push(c);
+        }
+        s.plan = if i % 2 == 0 { Plan::default() } else { random_plan(&mut rng, false) };
+        // b saturates its send buffer on the negotiated channel right after Open
+        s.sends.push(SendSpec { side: 'b', ch: 1, sender: 0, n: 12, mode: "big".into(), seed: rng.next_u64(), gap_us: 0 });
+        s.sends.push(SendSpec { side: 'b', ch: 1, sender: 1, n: 12, mode: "big".into(), seed: rng.next_u64(), gap_us: 0 });
+        s.sends.push(SendSpec { side: 'a', ch: 1, sender: 0, n: 20, mode: "small".into(), seed: rng.next_u64(), gap_us: 0 });
+        for id in [2u16, 4, 6] {
+            s.sends.push(SendSpec { side: 'a', ch: id, sender: 0, n: 10, mode: "small".into(), seed: rng.next_u64(), gap_us: 0 });
+            s.sends.push(SendSpec { side: 'b', ch: id, sender: 0, n: 10, mode: "small".into(), seed: rng.next_u64(), gap_us: 0 });
         }
         out.push(s);
     }
@@ -1949,6 +1978,14 @@ pub fn run(args: &Args) -> i32 {
                 let n = o.wire.len();
                 for c in o.wire.iter().filter(|c| c.sctp.as_ref().map(|p| !p.has(4) && !p.has(5)).unwrap_or(false)).skip(n.saturating_sub(n)) {
                     println!("   wire t={} {} {} fault={:?}", c.t_us, c.dir.name(), c.sctp.as_ref().map(|p| p.summary()).unwrap_or_else(|| format!("{:?}", c.kind)), c.fault);
+                }
+            }
+            if matches!(o.end, EndReason::StallRetry(_)) && std::env::var("RTCMON_DEBUG").is_ok() {
+                for (side, tap) in [('a', &o.tap_a), ('b', &o.tap_b)] {
+                    let n = tap.len();
+                    for e in tap.iter().skip(n.saturating_sub(12)) {
+                        println!("   tap {side} t={} {} {}", e.t_us, if e.tx { "TX" } else { "RX" }, e.pkt.summary().chars().take(160).collect::<String>());
+                    }
                 }
             }
             println!("scenario {:40} end={:?} wall={}ms fired={:?} rnd={} sub={} wire={} lag={}ms", o.scn.label, o.end, o.wall_ms, o.rules_fired, o.random_faults, o.submits.len(), o.wire.len(), o.canary_max_lag_ms);
